@@ -21,8 +21,8 @@ HR == {[k |-> "hr", algs |-> a, single |-> s, chunks |-> c, total |-> t, seed |-
           a \in {<<"sha256">>, <<"md5", "sha512">>, <<"sha1", "md5", "sha256", "sha512">>}, s \in BOOLEAN, c \in Bufs,
           t \in {0, 1, 5, 130}, sr \in {"dataerr", "onebyte", "half"}}
 HRok == {v \in HR : v.single => Len(v.algs) = 1}
-Sources == {<<"sha256", "dsc256">>, <<"sha256", "best">>, <<"sha512", "best">>} \cup {<<a, "hasher">> : a \in Algs}
-RecordedKinds(alg) == {"equal", "upper", "unequal", "trunc_odd", "trunc_even", "empty_content_hash", "longer", "zero_padded"} \cup
+Sources == {<<"sha256", "dsc256">>, <<"sha256", "best">>, <<"sha512", "best">>, <<"sha256", "bestloop">>, <<"sha512", "bestloop">>} \cup {<<a, "hasher">> : a \in Algs}
+RecordedKinds(alg) == {"equal", "upper", "unequal", "trunc_odd", "trunc_even", "trunc_zero_tail", "empty_content_hash", "longer", "zero_padded"} \cup
                       {"other:" \o a : a \in Algs \ {alg}}
 Ver == UNION {{[k |-> "verifier", alg |-> s[1], source |-> s[2], recorded |-> r, len |-> n, chunks |-> c, seed |-> 5] :
                    r \in RecordedKinds(s[1]), n \in Lens, c \in {<<>>, <<1>>, <<64, 1>>}} : s \in Sources}
